@@ -246,7 +246,7 @@ function like_to_regex(pattern) {
 function like(text, pattern) {
     let matcher = query_context.like_regex_cache.get(pattern);
     if (matcher === undefined) {
-        matcher = new RegExp(like_to_regex(pattern));
+        matcher = new RegExp(like_to_regex(pattern), 'u'); // Unicode mode: "_" (translated to ".") must match one character (code point) and not one UTF-16 code unit
         query_context.like_regex_cache.set(pattern, matcher);
     }
     return matcher.test(text);
